@@ -11,6 +11,7 @@ PROP = dict(
               'Fit.C18.C18_go2lean_sum', 'Fit.C18.C18_go2lean_reset', 'Fit.C18.C18_go2lean_crc_of_source'],
     families=[dict(name='crc', spec=True)],
     trusted_base=STD_TRUST + [
+        "translators/go2lean (Go→Lean for a small subset of Go, notes/go2lean.md) re-translates kit/hash/crc16/crc16.go (table, compute, Write, Sum16, Sum, Reset, Size, BlockSize; the method set of crc16 must be exactly these) from the current source on every run; the agreement theorems *_go2lean_* state that the translated functions equal the hand-written model functions for all arguments; trusted: the translator's rendering of the subset (go/types computes constants and types) and FitModel/GoPrelude.lean",
         "crc16.go's 16 table literals are extracted by go/ast on every run (Generated/CrcTable.lean); the shape of compute() is tied by the exhaustive family: all 2^24 three-byte strings = every (state, byte) pair of the step function, digest-compared between implementation, model and bitwise spec",
     ],
     assumptions=["hash state is a uint16 (model: Nat < 2^16, preserved by every step: compute_lt)"],
